@@ -681,4 +681,445 @@ theorem cloneRef_ok_of_acyclic (src : Src) (rank : Nat → Nat) (hac : Acyclic s
         rw [hks]
         exact ⟨_, rfl⟩
 
+
+/-! ### pages -/
+
+theorem resGet_cons {α : Type} (k' : RKind) (n' : Nat) (v : α) (t : ResTable α) (k : RKind) (n : Nat) :
+    resGet (((k', n'), v) :: t) k n = if k' = k ∧ n' = n then some v else resGet t k n := rfl
+
+/-- state of `clone_page` while the operations are processed: new resource table + importer -/
+abbrev PSt := ResTable (Nat × List Nat) × St
+
+/-- every entry of the new table is the copy of the entry of the same category and name of the old table -/
+def ResInv (src : Src) (old : ResTable Entry) (s : PSt) : Prop :=
+  Inv src s.2 ∧ ∀ k name p ks, resGet s.1 k name = some (p, ks) →
+    handled k = true ∧ ∃ ent, resGet old k name = some ent ∧ p = ent.payload ∧ Mapped s.2.map ent.kids ks
+
+def ResExt (s s' : PSt) : Prop :=
+  Ext s.2 s'.2 ∧ ∀ k name v, resGet s.1 k name = some v → resGet s'.1 k name = some v
+
+/-- the resource an operation names is in the new table (if the old table has it and `deep_clone_op`
+    looks at the category) -/
+def Covered (old : ResTable Entry) (op : OpM) (s : PSt) : Prop :=
+  ∀ k name, op = .use k name → handled k = true → ∀ ent, resGet old k name = some ent →
+    ∃ v, resGet s.1 k name = some v
+
+theorem ResExt.refl (s : PSt) : ResExt s s := ⟨Ext.refl _, fun _ _ _ h => h⟩
+theorem ResExt.trans {a b c : PSt} (h1 : ResExt a b) (h2 : ResExt b c) : ResExt a c :=
+  ⟨h1.1.trans h2.1, fun k n v h => h2.2 k n v (h1.2 k n v h)⟩
+
+theorem ResInv.step {src : Src} {old : ResTable Entry} {s : PSt} (h : ResInv src old s) (st1 : St)
+    (hi : Inv src st1) (he : Ext s.2 st1) : ResInv src old (s.1, st1) := by
+  refine ⟨hi, ?_⟩
+  intro k name p ks hg
+  obtain ⟨hh, ent, h1, h2, h3⟩ := h.2 k name p ks hg
+  exact ⟨hh, ent, h1, h2, mapped_mono _ _ he.map_ext _ _ h3⟩
+
+theorem cloneOp_spec (src : Src) (f : Nat) (old : ResTable Entry) (op : OpM) (s : PSt)
+    (h : ResInv src old s) :
+    ResInv src old (cloneOp f src old op s).2 ∧ ResExt s (cloneOp f src old op s).2 ∧
+      ∀ u, (cloneOp f src old op s).1 = .ok u → Covered old op (cloneOp f src old op s).2 := by
+  cases op with
+  | other t =>
+    simp only [cloneOp]
+    exact ⟨h, ResExt.refl s, by intro _ _ k name hop; cases hop⟩
+  | inline kids =>
+    simp only [cloneOp]
+    have hk := kids_spec src (cloneRef f src) (cloneRef_spec src f) kids s.2 h.1
+    have hcov : ∀ (s' : PSt), Covered old (.inline kids) s' := by intro _ k name hop; cases hop
+    cases hr : (cloneKids f src kids s.2).1 <;> simp only <;>
+      exact ⟨h.step _ hk.1 hk.2.1, ⟨hk.2.1, fun _ _ _ hh => hh⟩, fun _ _ => hcov _⟩
+  | use k name =>
+    simp only [cloneOp]
+    by_cases hh : handled k = true
+    · simp only [hh, if_true]
+      cases hnew : resGet s.1 k name with
+      | some v =>
+        simp only
+        refine ⟨h, ResExt.refl s, ?_⟩
+        intro _ _ k' name' hop _ _ _
+        cases hop
+        exact ⟨v, hnew⟩
+      | none =>
+        simp only
+        cases hold : resGet old k name with
+        | none =>
+          simp only
+          refine ⟨h, ResExt.refl s, ?_⟩
+          intro _ _ k' name' hop _ ent hent
+          cases hop
+          rw [hold] at hent; cases hent
+        | some ent =>
+          simp only
+          have hk := kids_spec src (cloneRef f src) (cloneRef_spec src f) ent.kids s.2 h.1
+          cases hr : (cloneKids f src ent.kids s.2).1 with
+          | ok ks =>
+            simp only
+            refine ⟨⟨hk.1, ?_⟩, ⟨hk.2.1, ?_⟩, ?_⟩
+            · intro k' name' p ks' hg
+              rw [resGet_cons] at hg
+              by_cases heq : k = k' ∧ name = name'
+              · simp only [heq, and_self, if_true, Option.some.injEq, Prod.mk.injEq] at hg
+                obtain ⟨rfl, rfl⟩ := heq
+                obtain ⟨rfl, rfl⟩ := hg
+                exact ⟨hh, ent, hold, rfl, hk.2.2 ks hr⟩
+              · simp only [heq, if_false] at hg
+                obtain ⟨hh', ent', h1, h2, h3⟩ := h.2 k' name' p ks' hg
+                exact ⟨hh', ent', h1, h2, mapped_mono _ _ hk.2.1.map_ext _ _ h3⟩
+            · intro k' name' v hg
+              rw [resGet_cons]
+              by_cases heq : k = k' ∧ name = name'
+              · obtain ⟨rfl, rfl⟩ := heq
+                rw [hnew] at hg; cases hg
+              · simp only [heq, if_false]; exact hg
+            · intro _ _ k' name' hop _ _ _
+              cases hop
+              exact ⟨(ent.payload, ks), by rw [resGet_cons]; simp⟩
+          | err => simp only; exact ⟨h.step _ hk.1 hk.2.1, ⟨hk.2.1, fun _ _ _ hg => hg⟩, by intro u hu; cases hu⟩
+          | panic => simp only; exact ⟨h.step _ hk.1 hk.2.1, ⟨hk.2.1, fun _ _ _ hg => hg⟩, by intro u hu; cases hu⟩
+          | oof => simp only; exact ⟨h.step _ hk.1 hk.2.1, ⟨hk.2.1, fun _ _ _ hg => hg⟩, by intro u hu; cases hu⟩
+    · simp only [hh]
+      refine ⟨h, ResExt.refl s, ?_⟩
+      intro _ _ k' name' hop hh' _ _
+      cases hop
+      exact absurd hh' hh
+
+theorem cloneOps_spec (src : Src) (f : Nat) (old : ResTable Entry) (ops : List OpM) (st : St) (h : Inv src st) :
+    ResInv src old (cloneOps f src old ops st).2 ∧ Ext st (cloneOps f src old ops st).2.2 ∧
+      ∀ us, (cloneOps f src old ops st).1 = .ok us → ∀ op ∈ ops, Covered old op (cloneOps f src old ops st).2 := by
+  have h0 : ResInv src old (([] : ResTable (Nat × List Nat)), st) :=
+    ⟨h, by intro k name p ks hg; simp [resGet] at hg⟩
+  have := mapSt_spec (cloneOp f src old) (ResInv src old) ResExt (fun op _ s => Covered old op s)
+    (fun ops _ s => ∀ op ∈ ops, Covered old op s) ResExt.refl (fun _ _ _ => ResExt.trans)
+    (fun _ _ hop => by simp at hop)
+    (fun a _ as _ s s' hq hr hl op hop => by
+      simp only [List.mem_cons] at hop
+      rcases hop with rfl | hop
+      · intro k name e1 e2 ent e3
+        obtain ⟨v, hv⟩ := hq k name e1 e2 ent e3
+        exact ⟨v, hr.2 _ _ _ hv⟩
+      · exact hl op hop)
+    ops (fun a _ s hs => cloneOp_spec src f old a s hs) ([], st) h0
+  exact ⟨this.1, this.2.1.1, this.2.2⟩
+
+/-- what a successfully cloned page looks like -/
+structure PageOK (p : PageM) (out : PageOut) (st' : St) : Prop where
+  /-- every resource of a handled category that an operation names and the old table has is in the new table,
+      as a copy of the old entry -/
+  cover : ∀ k name, OpM.use k name ∈ p.ops → handled k = true → ∀ ent, resGet p.res k name = some ent →
+    ∃ ks, resGet out.res k name = some (ent.payload, ks) ∧ Mapped st'.map ent.kids ks
+  /-- and nothing else is -/
+  only : ∀ k name pl ks, resGet out.res k name = some (pl, ks) → handled k = true ∧
+    ∃ ent, resGet p.res k name = some ent ∧ pl = ent.payload ∧ Mapped st'.map ent.kids ks
+  rest : Mapped st'.map p.rest out.rest
+
+theorem clonePage_spec (src : Src) (f : Nat) (p : PageM) (st : St) (h : Inv src st) :
+    Inv src (clonePage f src p st).2 ∧ Ext st (clonePage f src p st).2 ∧
+      ∀ out, (clonePage f src p st).1 = .ok out → PageOK p out (clonePage f src p st).2 := by
+  have ho := cloneOps_spec src f p.res p.ops st h
+  have hk := kids_spec src (cloneRef f src) (cloneRef_spec src f) p.rest (cloneOps f src p.res p.ops st).2.2 ho.1.1
+  simp only [clonePage]
+  cases hr : (cloneOps f src p.res p.ops st).1 with
+  | ok us =>
+    simp only
+    cases hr2 : (cloneKids f src p.rest (cloneOps f src p.res p.ops st).2.2).1 with
+    | ok ks =>
+      simp only
+      refine ⟨hk.1, ho.2.1.trans hk.2.1, ?_⟩
+      intro out hout
+      simp only [Out.ok.injEq] at hout
+      subst hout
+      refine ⟨?_, ?_, hk.2.2 ks hr2⟩
+      · intro k name hop hh ent hent
+        obtain ⟨v, hv⟩ := ho.2.2 us hr _ hop k name rfl hh ent hent
+        obtain ⟨pl, ks'⟩ := v
+        obtain ⟨_, ent', h1, h2, h3⟩ := ho.1.2 k name pl ks' hv
+        rw [hent] at h1; cases h1
+        exact ⟨ks', by rw [hv, h2], mapped_mono _ _ hk.2.1.map_ext _ _ h3⟩
+      · intro k name pl ks' hv
+        obtain ⟨hh, ent', h1, h2, h3⟩ := ho.1.2 k name pl ks' hv
+        exact ⟨hh, ent', h1, h2, mapped_mono _ _ hk.2.1.map_ext _ _ h3⟩
+    | err => simp only; exact ⟨hk.1, ho.2.1.trans hk.2.1, by intro _ hh; cases hh⟩
+    | panic => simp only; exact ⟨hk.1, ho.2.1.trans hk.2.1, by intro _ hh; cases hh⟩
+    | oof => simp only; exact ⟨hk.1, ho.2.1.trans hk.2.1, by intro _ hh; cases hh⟩
+  | err => simp only; exact ⟨ho.1.1, ho.2.1, by intro _ hh; cases hh⟩
+  | panic => simp only; exact ⟨ho.1.1, ho.2.1, by intro _ hh; cases hh⟩
+  | oof => simp only; exact ⟨ho.1.1, ho.2.1, by intro _ hh; cases hh⟩
+
+
+theorem clonePages_spec (src : Src) (f : Nat) : ∀ (ps : List PageM) (st : St), Inv src st →
+    Inv src (clonePages f src ps st).2 ∧ Ext st (clonePages f src ps st).2 := by
+  intro ps
+  induction ps with
+  | nil => intro st h; exact ⟨h, Ext.refl st⟩
+  | cons p ps ih =>
+    intro st h
+    simp only [clonePages]
+    have h1 := clonePage_spec src f p st h
+    have h2 := ih _ h1.1
+    exact ⟨h2.1, h1.2.1.trans h2.2⟩
+
+theorem clonePages_append (src : Src) (f : Nat) : ∀ (ps qs : List PageM) (st : St),
+    (clonePages f src (ps ++ qs) st).2 = (clonePages f src qs (clonePages f src ps st).2).2 := by
+  intro ps
+  induction ps with
+  | nil => intro qs st; rfl
+  | cons p ps ih => intro qs st; simp only [List.cons_append, clonePages]; exact ih qs _
+
+/-! ### pages: outcomes -/
+
+theorem cloneOp_ne_panic (src : Src) (f : Nat) (old : ResTable Entry) (op : OpM) (s : PSt) :
+    (cloneOp f src old op s).1 ≠ .panic := by
+  have hk : ∀ l st, (cloneKids f src l st).1 ≠ .panic := fun l st => mapSt_ne_panic _ (cloneRef_ne_panic src f) l st
+  cases op with
+  | other t => simp [cloneOp]
+  | inline kids =>
+    simp only [cloneOp]
+    split
+    · simp
+    · simp
+    · rename_i hh; exact absurd hh (hk _ _)
+    · simp
+  | use k name =>
+    simp only [cloneOp]
+    split
+    · split
+      · simp
+      · split
+        · simp
+        · split
+          · simp
+          · simp
+          · rename_i hh; exact absurd hh (hk _ _)
+          · simp
+    · simp
+
+theorem clonePage_ne_panic (src : Src) (f : Nat) (p : PageM) (st : St) : (clonePage f src p st).1 ≠ .panic := by
+  simp only [clonePage]
+  split
+  · split
+    · simp
+    · simp
+    · rename_i hh; exact absurd hh (mapSt_ne_panic _ (cloneRef_ne_panic src f) _ _)
+    · simp
+  · simp
+  · rename_i hh; exact absurd hh (mapSt_ne_panic _ (cloneOp_ne_panic src f p.res) _ _)
+  · simp
+
+theorem cloneKids_pending (src : Src) (f : Nat) (l : List Edge) (st : St) :
+    (cloneKids f src l st).2.pending = st.pending :=
+  mapSt_proj (cloneRef f src) St.pending (cloneRef_pending src f) l st
+
+theorem cloneOp_pending (src : Src) (f : Nat) (old : ResTable Entry) (op : OpM) (s : PSt) :
+    (cloneOp f src old op s).2.2.pending = s.2.pending := by
+  cases op with
+  | other t => rfl
+  | inline kids => simp only [cloneOp]; split <;> exact cloneKids_pending src f _ _
+  | use k name =>
+    simp only [cloneOp]
+    split
+    · split
+      · rfl
+      · split
+        · rfl
+        · split <;> exact cloneKids_pending src f _ _
+    · rfl
+
+theorem cloneOps_pending (src : Src) (f : Nat) (old : ResTable Entry) (ops : List OpM) (st : St) :
+    (cloneOps f src old ops st).2.2.pending = st.pending :=
+  mapSt_proj (cloneOp f src old) (fun s => s.2.pending) (cloneOp_pending src f old) ops ([], st)
+
+theorem clonePage_pending (src : Src) (f : Nat) (p : PageM) (st : St) :
+    (clonePage f src p st).2.pending = st.pending := by
+  simp only [clonePage]
+  split
+  · split <;> (rw [cloneKids_pending, cloneOps_pending])
+  · exact cloneOps_pending src f _ _ _
+  · exact cloneOps_pending src f _ _ _
+  · exact cloneOps_pending src f _ _ _
+
+theorem clonePages_pending (src : Src) (f : Nat) : ∀ (ps : List PageM) (st : St),
+    (clonePages f src ps st).2.pending = st.pending := by
+  intro ps
+  induction ps with
+  | nil => intro st; rfl
+  | cons p ps ih => intro st; simp only [clonePages]; rw [ih, clonePage_pending]
+
+/-- fuel for a whole page: more than the number of objects of the source is enough -/
+theorem clonePage_ne_oof (src : Src) (support : List Nat) (hsup : ∀ o, src o ≠ none → o ∈ support)
+    (f : Nat) (hf : support.length < f) (p : PageM) (st : St) (hp : st.pending = []) :
+    (clonePage f src p st).1 ≠ .oof := by
+  have href : ∀ (e : Edge) (s : St), s.pending = [] → (cloneRef f src e s).1 ≠ .oof := by
+    intro e s hs
+    exact cloneRef_ne_oof src support hsup f e s (by simp [hs]) (by simp [hs]) (by simp [hs]; omega)
+  have hkids : ∀ (l : List Edge) (s : St), s.pending = [] → (cloneKids f src l s).1 ≠ .oof := by
+    intro l s hs
+    exact mapSt_ne_oof (cloneRef f src) (fun s => s.pending = [])
+      (fun a s hs' => by rw [cloneRef_pending]; exact hs') l (fun a _ s hs' => href a s hs') s hs
+  have hop : ∀ (op : OpM) (s : PSt), s.2.pending = [] → (cloneOp f src p.res op s).1 ≠ .oof := by
+    intro op s hs
+    cases op with
+    | other t => simp [cloneOp]
+    | inline kids =>
+      simp only [cloneOp]
+      split
+      · simp
+      · simp
+      · simp
+      · rename_i hh; exact absurd hh (hkids _ _ hs)
+    | use k name =>
+      simp only [cloneOp]
+      split
+      · split
+        · simp
+        · split
+          · simp
+          · split
+            · simp
+            · simp
+            · simp
+            · rename_i hh; exact absurd hh (hkids _ _ hs)
+      · simp
+  have hops : (cloneOps f src p.res p.ops st).1 ≠ .oof :=
+    mapSt_ne_oof (cloneOp f src p.res) (fun s => s.2.pending = [])
+      (fun a s hs' => by rw [cloneOp_pending]; exact hs') p.ops (fun a _ s hs' => hop a s hs') ([], st) hp
+  simp only [clonePage]
+  split
+  · split
+    · simp
+    · simp
+    · simp
+    · rename_i hh
+      exact absurd hh (hkids _ _ (by rw [cloneOps_pending]; exact hp))
+  · simp
+  · simp
+  · rename_i hh; exact absurd hh hops
+
+/-- every reference a page holds outside its content stream's plain operations -/
+def pageEdges (p : PageM) : List Edge :=
+  (p.res.flatMap fun r => r.2.kids) ++ (p.ops.flatMap fun op => match op with | .inline ks => ks | _ => []) ++ p.rest
+
+theorem resGet_mem {α : Type} : ∀ (t : ResTable α) (k : RKind) (n : Nat) (v : α), resGet t k n = some v →
+    ((k, n), v) ∈ t := by
+  intro t
+  induction t with
+  | nil => intro k n v h; simp [resGet] at h
+  | cons p t ih =>
+    intro k n v h
+    obtain ⟨⟨k', n'⟩, v'⟩ := p
+    rw [resGet_cons] at h
+    by_cases heq : k' = k ∧ n' = n
+    · simp only [heq, and_self, if_true, Option.some.injEq] at h
+      obtain ⟨rfl, rfl⟩ := heq
+      subst h; simp
+    · simp only [heq, if_false] at h
+      exact List.mem_cons_of_mem _ (ih k n v h)
+
+/-- **success** for a page over an acyclic source without dangling references -/
+theorem clonePage_ok_of_acyclic (src : Src) (rank : Nat → Nat) (hac : Acyclic src rank) (f : Nat) (p : PageM)
+    (st : St) (hp : st.pending = []) (hedges : ∀ e ∈ pageEdges p, src e.tgt ≠ none ∧ rank e.tgt < f) :
+    ∃ out, (clonePage f src p st).1 = .ok out := by
+  have hkids : ∀ (l : List Edge), (∀ e ∈ l, e ∈ pageEdges p) → ∀ (s : St), s.pending = [] →
+      ∃ ks, (cloneKids f src l s).1 = .ok ks := by
+    intro l hl s hs
+    refine mapSt_ok (cloneRef f src) (fun s => s.pending = [])
+      (fun a s hs' => by rw [cloneRef_pending]; exact hs') l ?_ s hs
+    intro a ha s' hs'
+    have := hedges a (hl a ha)
+    exact cloneRef_ok_of_acyclic src rank hac f a s' this.1 this.2 (by simp [hs'])
+  have hop : ∀ op ∈ p.ops, ∀ (s : PSt), s.2.pending = [] → ∃ u, (cloneOp f src p.res op s).1 = .ok u := by
+    intro op hopm s hs
+    cases op with
+    | other t => exact ⟨(), rfl⟩
+    | inline kids =>
+      have hl : ∀ e ∈ kids, e ∈ pageEdges p := by
+        intro e he
+        simp only [pageEdges, List.mem_append, List.mem_flatMap]
+        exact Or.inl (Or.inr ⟨_, hopm, he⟩)
+      obtain ⟨ks, hks⟩ := hkids kids hl s.2 hs
+      simp only [cloneOp, hks]
+      exact ⟨(), trivial⟩
+    | use k name =>
+      simp only [cloneOp]
+      split
+      · split
+        · exact ⟨(), rfl⟩
+        · split
+          · exact ⟨(), rfl⟩
+          · rename_i ent hent
+            have hl : ∀ e ∈ ent.kids, e ∈ pageEdges p := by
+              intro e he
+              simp only [pageEdges, List.mem_append, List.mem_flatMap]
+              exact Or.inl (Or.inl ⟨_, resGet_mem _ _ _ _ hent, he⟩)
+            obtain ⟨ks, hks⟩ := hkids ent.kids hl s.2 hs
+            simp only [hks]
+            exact ⟨(), trivial⟩
+      · exact ⟨(), rfl⟩
+  obtain ⟨us, hus⟩ := mapSt_ok (cloneOp f src p.res) (fun s => s.2.pending = [])
+    (fun a s hs' => by rw [cloneOp_pending]; exact hs') p.ops hop ([], st) hp
+  have hrest : ∀ e ∈ p.rest, e ∈ pageEdges p := by
+    intro e he
+    simp only [pageEdges, List.mem_append]
+    exact Or.inr he
+  obtain ⟨ks, hks⟩ := hkids p.rest hrest (cloneOps f src p.res p.ops st).2.2 (by rw [cloneOps_pending]; exact hp)
+  have hus' : (cloneOps f src p.res p.ops st).1 = .ok us := hus
+  simp only [clonePage, hus', hks]
+  exact ⟨_, rfl⟩
+
+/-! ### the code before the fixes -/
+
+/-- D41: an object whose first reference leads back to itself is cloned again and again -/
+theorem Old.selfloop_diverges (src : Src) (r : Nat) (node : Node) (hs : src r = some node)
+    (hk : ∀ k, ∃ k' rest, node.kids k = ⟨k', r⟩ :: rest) :
+    ∀ (f : Nat) (k : Kind) (st : St), lk st.map r = none → (Old.cloneRef f src ⟨k, r⟩ st).1 = .oof := by
+  intro f
+  induction f with
+  | zero => intro k st _; rfl
+  | succ f ih =>
+    intro k st hl
+    obtain ⟨k', rest, hkids⟩ := hk k
+    have h1 := ih k' st hl
+    simp only [Old.cloneRef, hl, hs, hkids, mapSt, h1]
+
+
+theorem lookup_some_mem : ∀ (nodes : List (Nat × Node)) (o : Nat) (node : Node),
+    nodes.lookup o = some node → (o, node) ∈ nodes := by
+  intro nodes
+  induction nodes with
+  | nil => intro o node h; simp at h
+  | cons p nodes ih =>
+    intro o node h
+    obtain ⟨k, v⟩ := p
+    rw [List.lookup_cons] at h
+    cases hb : (o == k) with
+    | true =>
+      simp only [hb, Option.some.injEq] at h
+      have : o = k := by simpa using hb
+      subst this; subst h; simp
+    | false =>
+      simp only [hb] at h
+      exact List.mem_cons_of_mem _ (ih o node h)
+
+theorem acyclic_of_check (nodes : List (Nat × Node)) (rank : Nat → Nat) (h : acyclicCheck nodes rank = true) :
+    Acyclic (srcOf nodes) rank := by
+  have key : ∀ o node k e, srcOf nodes o = some node → e ∈ node.kids k →
+      rank e.tgt < rank o ∧ (nodes.lookup e.tgt).isSome = true := by
+    intro o node k e hs he
+    have hm := lookup_some_mem nodes o node hs
+    simp only [acyclicCheck, List.all_eq_true] at h
+    have h1 := h (o, node) hm
+    have he' : e ∈ node.kidsPrim ++ node.kidsTyped := by
+      cases k <;> simp only [Node.kids] at he <;> simp [he]
+    have h2 := h1 e he'
+    simp only [Bool.and_eq_true, decide_eq_true_eq] at h2
+    exact h2
+  constructor
+  · intro o node k e hs he; exact (key o node k e hs he).1
+  · intro o node k e hs he
+    have := (key o node k e hs he).2
+    intro hn
+    simp only [srcOf] at hn
+    rw [hn] at this
+    simp at this
+
 end Import
